@@ -46,3 +46,8 @@ BOUNDED.update({
     # concrete side of the ownership contract of HedTag.__deepcopy__ (real tags from parsed / expanded annotations; identity checks in the adapter)
     "C09.tag_deepcopy": {"cases": "rt.gens.tag_deepcopy_cases", "adapter": "rt.adapters.tag_deepcopy", "share": True},
 })
+
+BOUNDED.update({
+    # includes NaN / inf / overflow texts (the symbolic model's reals have no NaN: this search is the only check of that corner)
+    "C14.conversion_factor": {"cases": "rt.xgens_misc.conversion_factor_cases_with_nan", "adapter": "rt.xadapt_misc.issues", "share": True},
+})
